@@ -311,6 +311,25 @@ theorem endpoint_prefix_full (cs : List TxChan) (sid : UInt16) (ppid : UInt32) (
   rw [inv.pl, plRun_data _ (fun c hc => hppid c (List.mem_of_mem_take hc))]
   exact h1
 
+/-! non-vacuity of `endpoint_prefix_full`: an established endpoint, and a history mixing the DATA
+chunks (reordered, duplicated) with a duplicate INIT of this association, an INIT-ACK, a COOKIE-ECHO,
+a COOKIE-ACK, a SACK and a HEARTBEAT -/
+
+def exE0 : Ep :=
+  { rx := { cum := 0xFFFFFFFD, pl := { chans := [{ id := 1, ordered := true, state := 1 }] } },
+    state := .connected, localTag := 7, remoteTag := 9 }
+def exDupInit : RawChunk := { ty := 1, flags := 0, value := [0, 0, 0, 9, 0, 2, 0, 0, 0, 10, 0, 10, 0xFF, 0xFF, 0xFF, 0xFE] }
+def exCtl (t : UInt8) : RawChunk := { ty := t, flags := 0, value := [1, 2, 3, 4, 5, 6, 7, 8, 9, 10, 11, 12] }
+def exWire : List DChunk := wire [{ id := 1, ordered := true, maxPayload := 2 }] 1 53 [[1, 2, 3], [], [4]] 0xFFFFFFFE
+def exArr : List (Arrival exWire.length) :=
+  [.data ⟨2, by decide⟩, .ctl exDupInit, .data ⟨0, by decide⟩, .ctl (exCtl 2), .ctl (exCtl 10), .data ⟨2, by decide⟩,
+   .ctl (exCtl 11), .ctl (exCtl 3), .data ⟨1, by decide⟩, .ctl (exCtl 4), .data ⟨3, by decide⟩]
+
+example : Established exE0 ∧ benign exE0.remoteTag exDupInit = true ∧
+    (∀ t ∈ [2, 10, 11, 3, 4, 5], benign exE0.remoteTag (exCtl t) = true) ∧
+    (exArr.foldl (epArrive exWire) exE0).rx.pl.chans.map (·.events) = [[.msg [1, 2, 3], .msg [], .msg [4]]] := by
+  refine ⟨⟨rfl, rfl, by decide⟩, by decide, by decide, by decide⟩
+
 /-! ### non-vacuity: a concrete workload across the TSN wrap, with loss, duplication, reordering -/
 
 def exTx : List TxChan := [{ id := 1, ordered := true, maxPayload := 2 }]
